@@ -182,7 +182,7 @@ def make_phase(name, beh, ctx):
       raise FailureExc('failure exception in %s' % name)
     return {'ok': None, 'continue': h.PhaseResult.CONTINUE, 'fail': h.PhaseResult.FAIL_AND_CONTINUE,
             'skip': h.PhaseResult.SKIP, 'stop': h.PhaseResult.STOP, 'fail_subtest': h.PhaseResult.FAIL_SUBTEST,
-            'repeat': h.PhaseResult.REPEAT, 'bad': 42}[r]
+            'repeat': h.PhaseResult.REPEAT, 'bad': 42, 'bad0': 0}[r]
 
   body.__name__ = name
   kw = {}
